@@ -37,6 +37,8 @@ def mult(rng):
 
 def value(rng):
     r = rng.random()
+    if r < 0.08:
+        return E.num(0)      # a resource that is there and costs nothing: decomposed (removed, or re-typed) like any other
     if r < 0.5:
         return E.num(rng.randint(1, 9))
     if r < 0.8:
